@@ -121,8 +121,46 @@ fn c17_prog_subs() -> Vec<Box<dyn Sub>> {
     ]
 }
 
+fn c13_subs() -> Vec<Box<dyn Sub>> {
+    vec![Box::new(Check {
+        name: "generic_definitions",
+        quick: 1_500,
+        thorough: 40_000,
+        strat: Box::new(crate::p_generics::gcase),
+        body: Box::new(crate::p_generics::generics_body),
+        guard_death: false,
+        max_shrink: 160,
+    })]
+}
+
+fn c20_subs() -> Vec<Box<dyn Sub>> {
+    vec![Box::new(Check {
+        name: "negative_programs",
+        quick: 2_000,
+        thorough: 40_000,
+        strat: Box::new(crate::p_negative::ncase),
+        body: Box::new(crate::p_negative::negative_body),
+        guard_death: false,
+        max_shrink: 160,
+    })]
+}
+
 pub fn all() -> Vec<PropDef> {
     vec![
+        PropDef {
+            id: "C13",
+            rule: "one generated generic definition per program (struct or enum; parameters used directly, in Vec/Option/tuple/array/Box/BTreeMap, in PhantomData, through T::A and <T as Tr>::B, in self-referential positions, as compact members, in #[codec(skip)] members and variants of types without type info; up to two lifetimes incl. 'b: 'a, const parameter, defaults, inline bounds, where-clauses, raw identifiers, skip_type_params, explicit bounds(..)) with 1-3 instantiations chosen so that exactly the stated premises hold; oracle = rustc accepts the definition and assert_type_info::<Inst>() (twin without the derive must compile too), type_info() runs and lists parameters Some/None per skip_type_params; non-trivial = at least one type parameter, distinct by case",
+            assumptions: &["relaxed bounds (T: ?Sized) and mutually recursive generic definitions without a bounds attribute are outside the stated grammar and not generated", "rustc's trait solver is the oracle"],
+            subs: c13_subs,
+            extra: None,
+        },
+        PropDef {
+            id: "C20",
+            rule: "negative programs, one defect each, every one with a positive twin that differs only in the defect: type without a path, variant without an index, field without a type, named member among unnamed, unnamed among named, member on a unit field set - in compile-time and portable form, struct and variant position, with surrounding setters varied and with builder states obtained through Default::default(); derive: unions, unknown item-level scale_info keys, repeated bounds / skip_type_params / capture_docs / crate (same list, separate attributes, other attributes in between), invalid capture_docs strings, bounds(..) leaving a non-skipped parameter unbound; oracle = twin compiles, negative does not, no typo-class error, builder negatives fail with a type error at the builder call, derive negatives additionally leave `X: TypeInfo` unsatisfied at a use site; non-trivial = every program, distinct by source text",
+            assumptions: &["the wording of scale-info's error messages is never matched", "unknown scale_info keys on members are outside the anchored item-level parser and not generated"],
+            subs: c20_subs,
+            extra: None,
+        },
         PropDef {
             id: "C17",
             rule: "generated builder call chains (type / fields / field / variants / variant builders, compile-time and portable form, every optional part present or absent, setter orders permuted, members of PhantomData type among the supplied ones) compiled and run against scale-info with the docs feature on and off; plus generated definitions and built-in type expressions with PhantomData in every position; oracle = the built Type holds exactly the supplied path, parameters, members, indices, type names and docs in order, minus PhantomData members, with .docs() kept iff the feature is on and .docs_always() always; no registry entry lists a member whose type is PhantomData; non-trivial = chain with >= 2 members/variants and an optional part set, or a program containing PhantomData, distinct by (case, docs setting)",
